@@ -29,6 +29,11 @@ func C08_reply_exact() {
 	keep := append([]byte{}, payload...)
 	dst := &vDst{failAt: -1}
 	h := ws.Header{Fin: true, OpCode: op, Length: int64(n), Masked: server}
+	if server {
+		// the header as it came off the wire: the Reader / ReadData helpers hand the handler
+		// the original header (mask included) together with an already unmasked payload
+		h.Mask = [4]byte{vU8("k0"), vU8("k1"), vU8("k2"), vU8("k3")}
+	}
 	var err error
 	consumed := -1
 	switch vChoose("entry", 4) {
@@ -40,7 +45,6 @@ func C08_reply_exact() {
 		if !server {
 			vAssume(false)
 		}
-		h.Mask = [4]byte{vU8("k0"), vU8("k1"), vU8("k2"), vU8("k3")}
 		masked := make([]byte, n)
 		for i := range masked {
 			masked[i] = payload[i] ^ h.Mask[i%4]
